@@ -110,6 +110,7 @@ func cmdCheck(args []string) int {
 			}
 			x.obligs = keep
 		}
+		x.crossCheck = *tier == "thorough"
 		x.noRetry = map[string]bool{}
 		for i := range known {
 			if known[i].Property == id && known[i].Status == "open" {
@@ -331,6 +332,58 @@ func cmdCheck(args []string) int {
 			}
 		}
 	}
+	// thorough tier: second-solver verdicts
+	crossStats := map[string]int{}
+	for _, fr := range runs {
+		for _, r := range fr.Results {
+			if r.Cross != "" {
+				k := r.Cross
+				if strings.HasPrefix(k, "confirmed by ") {
+					k = "confirmed"
+				} else if strings.HasPrefix(k, "DISAGREES") {
+					k = "disagreement"
+				} else {
+					k = "second solver undecided"
+				}
+				crossStats[k]++
+			}
+		}
+	}
+	// in-repo contracts assumed at call sites in this run, and the checks that prove them
+	var assumedRepo []map[string]interface{}
+	{
+		seen := map[string]bool{}
+		var names []string
+		for _, fr := range runs {
+			if fr.X == nil {
+				continue
+			}
+			for n, ct := range fr.X.usedContracts {
+				if !ct.Extern && !seen[n] {
+					seen[n] = true
+					names = append(names, n)
+				}
+			}
+		}
+		sort.Strings(names)
+		for _, n := range names {
+			ct := w.Specs.Contracts[n]
+			var provers []string
+			for p, c2 := range checks {
+				for _, r := range c2.Roots {
+					if r.Func == n && contains(r.Modes, "functional") {
+						provers = append(provers, p)
+					}
+				}
+			}
+			sort.Strings(provers)
+			e := map[string]interface{}{"func": n, "ensures_clauses": len(ct.Ensures), "proved_as_root_in": provers}
+			if ct.Trusted {
+				e["marked_trusted"] = true
+			}
+			assumedRepo = append(assumedRepo, e)
+		}
+	}
 	trusted := append([]string{}, cs.Trusted...)
 	var ext []string
 	for n := range usedExt {
@@ -379,6 +432,8 @@ func cmdCheck(args []string) int {
 		"mirror_fallback":   w.UsedMirror,
 		"missing_expected":  missing,
 		"slowest":           slow,
+		"second_solver":     crossStats,
+		"in_repo_contracts_assumed_at_call_sites": assumedRepo,
 	}
 	if len(samples) == 0 {
 		cov["samples"] = []map[string]interface{}{{"note": "no solver-discharged obligation in this run"}}
